@@ -5,8 +5,7 @@ import (
 	"fmt"
 	"os"
 	"path/filepath"
-	"sort"
-	"strconv"
+		"strconv"
 	"strings"
 	"time"
 
@@ -134,46 +133,12 @@ func runSched(c *ctx, plan []famCount, race bool) *schedAgg {
 		env = append(env, "GORACE=halt_on_error=0 log_path="+filepath.Join(work, "race"))
 	}
 	// Children vary GOMAXPROCS (the default worker limit depends on it).
-	results := make([]vc.ChildResult, len(jobs))
-	{
-		groups := map[int][]int{}
-		procs := []int{16, 8, 2, 4, 16, 3}
-		for i := range jobs {
-			groups[procs[i%len(procs)]] = append(groups[procs[i%len(procs)]], i)
-		}
-		type gr struct {
-			p   int
-			idx []int
-		}
-		var gl []gr
-		for p, idx := range groups {
-			gl = append(gl, gr{p, idx})
-		}
-		sort.Slice(gl, func(i, j int) bool { return gl[i].p > gl[j].p })
-		done := make(chan struct{}, len(gl))
-		for _, g := range gl {
-			go func(g gr) {
-				var a [][]string
-				for _, i := range g.idx {
-					a = append(a, args[i])
-				}
-				par := 16 / len(gl)
-				if par < 2 {
-					par = 2
-				}
-				rs := vc.RunChildren(bin, work, a, append(append([]string{}, env...), "GOMAXPROCS="+strconv.Itoa(g.p)), par, 15*time.Minute)
-				for k, i := range g.idx {
-					results[i] = rs[k]
-				}
-				done <- struct{}{}
-			}(g)
-		}
-		for range gl {
-			<-done
-		}
+	procs := []int{16, 8, 2, 4, 16, 3}
+	for i := range args {
+		args[i] = append([]string{"GOMAXPROCS=" + strconv.Itoa(procs[i%len(procs)])}, args[i]...)
 	}
-
-	for i, r := range results {
+	stop := func() bool { return c.R.NumViolations() >= 6 }
+	vc.RunChildren("/usr/bin/env", work, prefixBin(args, bin), env, 16, 15*time.Minute, stop, func(i int, r vc.ChildResult) {
 		j := jobs[i]
 		if os.Getenv("VERIF_DEBUG") != "" {
 			fmt.Fprintf(os.Stderr, "child %d %s[%d..%d) wall=%v exit=%d\n", i, j.fam, j.from, j.from+j.count, r.Wall, r.ExitCode)
@@ -183,18 +148,18 @@ func runSched(c *ctx, plan []famCount, race bool) *schedAgg {
 			last := lastBegin(j.prog)
 			if r.TimedOut {
 				c.R.Inconclusive(fmt.Sprintf("engine S child %s[%d..%d) exceeded the hard time limit at scenario %s", j.fam, j.from, j.from+j.count, last))
-				continue
+				return
 			}
 			agg.Crashes++
 			c.R.Add(vc.Violation{Property: c.Prop, Case: fmt.Sprintf("%s#%s", j.fam, last),
 				Why:     fmt.Sprintf("the harness process died (exit %d) while running scenario %s of family %s: %s", r.ExitCode, last, j.fam, firstLines(r.Output, 6)),
 				Witness: map[string]interface{}{"args": r.Args, "output": vc.Tail(r.Output, 6000), "seed": c.Seed}})
-			continue
+			return
 		}
 		var br schedBatch
 		if err := json.Unmarshal(b, &br); err != nil {
 			c.R.Inconclusive("unreadable batch result: " + err.Error())
-			continue
+			return
 		}
 		agg.Evaluations += br.Ran
 		agg.ByFamily[br.Family] += br.Ran
@@ -240,14 +205,24 @@ func runSched(c *ctx, plan []famCount, race bool) *schedAgg {
 				continue // another property's oracle fired; that property's own check reports it
 			}
 			c.R.Add(vc.Violation{Property: c.Prop, Case: fmt.Sprintf("%s#%d", br.Family, v.Index), Why: v.Why, Obs: v.Obs,
-				Witness: map[string]interface{}{"engine": "S", "seed": c.Seed, "family": br.Family, "index": v.Index, "scenario": v.Scenario, "dump": v.Dump,
-					"replay": fmt.Sprintf("VERIF_SEED=%d bin/vcheck %s --replay %s#%d", c.Seed, c.Prop, br.Family, v.Index)}})
+				Witness: map[string]interface{}{"engine": "S", "seed": c.Seed, "family": br.Family, "index": v.Index, "scenario": v.Scenario, "dump": v.Dump}})
 		}
-	}
+		os.Remove(j.out)
+		os.Remove(r.OutFile)
+	})
 	if race {
 		agg.RaceReports = collectRaces(c, work, "S")
 	}
 	return agg
+}
+
+func prefixBin(args [][]string, bin string) [][]string {
+	out := make([][]string, len(args))
+	for i, a := range args {
+		// env GOMAXPROCS=n <bin> args...
+		out[i] = append([]string{a[0], bin}, a[1:]...)
+	}
+	return out
 }
 
 func hashS(s string) uint64 {
